@@ -48,6 +48,11 @@ CLAIMED = {
    note="Trusted: Coq kernel; translator (structural reading of the guards; fail-closed) and harness. Exceptions raised by numpy itself for dtype reasons are outside the model and observed by the grid. The grid of misuse shapes is finite and enumerated completely.",
    technique="Coq proof over translator-extracted guard structure + exhaustive outcome correspondence",
    design="4/C11"),
+ 'C09': dict(
+   text="Machine-checked proof (Coq 8.16.1, no axioms): with a cache whose stored value is a function of its key (the translator checks on the AST of LogRule.rule that the key (make_exact step_ratio, parity, num_terms) is exactly the argument tuple of _fd_matrix and the value its pinv), after ANY finite history of calls, pre-populating calls and cache clears a call returns the stateless evaluation (induction over the history with the invariant 'every cached value = compute key'); for ANY number of concurrent calls and ANY schedule of their atomic lookup/compute/store/finish steps from any consistent cache, every completed call returns the stateless evaluation; changing and restoring n/order/method restores the configuration; a shared step generator's output depends on its options and the current call only. Ties: the FD_RULES key set after random histories equals the model's (keys from the regenerated tables); values and full_output records after random histories on live objects of all five classes are compared bit-for-bit with a fresh interpreter; disjoint objects on 8-16 threads likewise.",
+   note="Trusted: Coq kernel; translator; harness; CPython dict get/set atomicity; no derivative or generator object shared between threads (the property's restriction). Real OS scheduling is not what the schedule theorem quantifies over (it quantifies over interleavings of the modelled atomic steps); the thread run is supporting evidence.",
+   technique="Coq proof (invariant over fold of operations; interleaving semantics) + translator structural check + bit-for-bit comparison with a fresh interpreter",
+   design="4/C09"),
 }
 REASON_TODO = "not claimed yet: the Coq model, theorems and correspondence for this property are still being built (see DESIGN.md section 8 for the order)"
 def main():
